@@ -2,6 +2,7 @@
 import re
 
 from ..core import CheckError, op_const, op_place
+from .c01 import ok_edge_of_try
 from ..prov import reads_locals, sources
 from . import serde_table
 
@@ -49,6 +50,16 @@ def run(ctx):
             ok = ev in roots and not any(x[0] == 'agg' and x[1].startswith('rip_kernel::Event') and x[2] is not None and not _is_def_of(f, ev, x[2]) for x in src)
             ctx.ob('C03.2', f, 'same-event:' + c.name, ok,
                    '%s receives %s' % (c.name, 'the appended event `%s` (or its clone)' % f.lname(ev) if ok else 'a value that is NOT the appended event'), line=c.line)
+        # nothing in the sidecar / live stream that is not in the log: a sibling that runs after the
+        # log append runs only on its Ok edge
+        e = ok_edge_of_try(f, s)
+        for c in sibs:
+            if not f.can_reach(s.bb, c.bb) or f.can_reach(c.bb, s.bb):
+                continue
+            dom = e is not None and e[1] is not None and f.edge_dom(e[0], e[1], c.bb)
+            ctx.ob('C03.2', f, 'log-first:' + c.name, dom,
+                   '%s after EventLog::append %s' % (c.name, 'runs only when the append succeeded' if dom else
+                                                     'ALSO runs when the append FAILED: the sidecar / live subscribers get a frame the log does not hold'), line=c.line)
         # no mutation of the event value after construction: neither the appended local nor any
         # Event-typed local the siblings receive (a moved / rebound copy) is assigned through
         # or mutably borrowed
@@ -144,6 +155,7 @@ def run(ctx):
     ctx.ob('C03.4', sid, 'stream-id-is-session-id', flds == {'session_id'}, 'stream_id reads field(s) %s' % sorted(flds))
 
     c035(ctx)
+    c036(ctx)
     # ---------------------------------------------------------------- C03.1
     serde_table.check(ctx)
 
@@ -192,3 +204,48 @@ def c035(ctx):
         if fields_read(app, on, 'rip_kernel::Event'):
             sw_on_event.append(bi)
     ctx.ob('C03.5', app, 'truth-append-unconditional', not sw_on_event, 'EventLog::append has %d branch(es) on the event' % len(sw_on_event), line=app.line)
+
+
+LOSSY = r'::from_utf8_lossy$|::from_utf8_unchecked$|::from_utf16_lossy$|::from_utf8_lossy_owned$'
+PARSE = r'^serde_json::de::from_(str|slice|reader)$'
+# only text / byte buffers (and iterators over them) carry the label: once text sits inside a typed frame it is content
+TEXTY = r'\bstr\b|String|u8|Cow<|Lines|Split|Chars|Bytes|Utf8'
+# storage boundaries: what is written is the frame's content (round-tripped faithfully whatever it holds);
+# the rule is about the DECODING on the way back, so taint does not travel through files / handles
+STORAGE = r'^std::fs::|File::open$|File::create$|OpenOptions::open$|::metadata$|std::io::Write>::|^rip_log::EventLog::append$|^rip_log::write_snapshot$|ContinuityStreamCache::append_best_effort$|^serde_json::ser::to_writer|broadcast::Sender::<T>::send$'
+
+
+def c036(ctx):
+    """frames are decoded strictly: the text / bytes handed to an Event parse never derive from a
+    lossy decoder (which replaces a split or invalid multi-byte sequence by U+FFFD and so alters a
+    string field on read-back)."""
+    from ..taint import Taint
+    P = ctx.prog
+    ctx.rule('C03.6', 'strict decoding on every frame read path (log replay, snapshot, sidecars): the argument of each serde_json parse of an Event (from_str / from_slice / from_reader) in rip-log and ripd carries no data produced by from_utf8_lossy / from_utf16_lossy / from_utf8_unchecked (interprocedural taint, including text accumulated through &mut receivers and handed to a parse helper).')
+    scope = lambda fn: fn.crate in ('rip_log', 'ripd')
+    nsrc = [0]
+
+    def source_call(site):
+        if re.search(LOSSY, site.callee):
+            nsrc[0] += 1
+            return 'lossy'
+        return None
+    # opening / reading a file at a path does not make the file's content derive from the path
+    T = Taint(P, lambda o, n: None, source_call=source_call, scope=scope,
+              no_propagate=lambda site: bool(re.search(STORAGE, site.callee)),
+              clean_type=lambda ty: not re.search(TEXTY, ty))
+    T.run()
+    sinks = []
+    for p, f in sorted(P.fns.items()):
+        if not scope(f):
+            continue
+        for s_ in f.sites():
+            if re.search(PARSE, s_.callee) and 'rip_kernel::Event' in s_.full:
+                sinks.append((f, s_))
+    ctx.floor('C03.6', 'Event parse sites in rip-log / ripd', len(sinks), 7)
+    ctx.floor('C03.6', 'lossy decoder call sites seen by the taint engine (engine alive)', nsrc[0], 1)
+    for f, s_ in sinks:
+        lab = T.tainted(f, s_.args[0])
+        ctx.ob('C03.6', f, 'strict-decode:' + s_.name, not lab,
+               'the input of %s::<Event> %s' % (s_.name, 'does not derive from a lossy decoder' if not lab else
+                                                'DERIVES FROM A LOSSY DECODER: a multi-byte character split by a read boundary (or an invalid byte) comes back as U+FFFD — the replayed frame differs from the one written'), line=s_.line)
